@@ -24,7 +24,10 @@ Oracle (DESIGN §C18), over the recorded specs only; the model is the generator'
     destination of a local file); input-group `{group}.name` paths are symlinked to the downloaded member;
   * write_output(resource, dest): the producing job has output entry (path it writes, dest);
   * distinct file resources never share a local or a remote path.
-PythonJob arguments are checked through the (pickled) argument files the job downloads.
+PythonJob arguments are checked through the (pickled) argument files the job downloads: positional and keyword arguments,
+walked through every list / tuple / dict (same container kind, same length / keys); every path found there for a file of
+another job is subject to the same plumbing clauses (downloaded from where the producer uploads it, producer is a parent,
+checked independently of each other) as a path found in a bash command.
 """
 import contextlib
 import io
@@ -45,11 +48,14 @@ RULE = (
     'files, groups, python results and inputs, explicit depends_on, 1..3 commands per job each made of 1..6 segments '
     '(adversarial literals: quotes, $, braces, backslashes, regex text, placeholder look-alikes, newlines; > 10 KiB '
     'commands that go through code.sh), PythonJob.call with file / group / list / python-result arguments and '
-    'as_str/as_json/as_repr conversions consumed by later jobs. Phase tokens: the job-token generator is restricted '
+    'as_str/as_json/as_repr conversions consumed by later jobs; resources that reach PythonJob.call only inside containers '
+    '(tuples, lists, dicts with string / int keys, nested up to three deep, empty containers, mixed with plain values) and as '
+    'keyword arguments, for files, group members, python results and inputs (phase pyargs: every call has such arguments; '
+    'main: about a third). Phase tokens: the job-token generator is restricted '
     'to a tiny seeded space (birthday collisions of 5-character tokens in large batches). Phase digits: a reference '
     'is immediately followed by a digit. Non-trivial: at least one file crosses jobs; distinct by the shape of the '
-    'program (op kinds, reference forms, extension timing) without the random names. quick 1200+100+100 programs, '
-    'thorough 16 shards x (5000+300+300).'
+    'program (op kinds, reference forms, extension timing) without the random names. quick 1200+100+100+200 programs, '
+    'thorough 16 shards x (5000+300+300+600).'
 )
 ASSUMPTIONS = [
     'the recording fake client receives exactly what hailtop.batch_client.aioclient.Batch.create_job would receive',
@@ -63,7 +69,8 @@ TIMEOUT = {'quick': 600, 'thorough': 1800}
 
 
 def FLOORS(tier):
-    # ~40 % of what a complete quick run (1400 programs) observes; thorough = 16 shards x 5600 programs = 64 x quick
+    # ~40 % of what a complete quick run (1400 programs before the pyargs phase was added) observed; thorough = 16 shards x
+    # 5600 programs = 64 x quick
     k = 1 if tier == 'quick' else 50
     return {
         'evaluations': 1000 * k,
@@ -85,6 +92,22 @@ def FLOORS(tier):
         'distinctness_paths_compared': 8000 * k,
         'token_space_cases': 80 * k,
         'digit_probes_placed': 60 * k,
+        # PythonJob.call arguments in containers (about half of the minimum over quick seeds 0..4; thorough has >= 48 x the
+        # quick number of such programs).  *_only_through_<kind> = files that reach a python consumer through that kind of
+        # container on every route: the only cases in which a container kind that is not searched for resources is visible
+        'python_container_args_walked': 1600 * k,
+        'python_keyword_args_checked': 400 * k,
+        'python_resource_args_nested_two_or_more_containers_deep': 600 * k,
+        'cross_job_reads_only_inside_containers': 400 * k,
+        'cross_job_reads_only_through_tuple': 160 * k,
+        'cross_job_reads_only_through_list': 180 * k,
+        'cross_job_reads_only_through_dict': 85 * k,
+        'cross_job_reads_only_through_kwarg': 90 * k,
+        'input_reads_only_inside_containers': 600 * k,
+        'input_reads_only_through_tuple': 200 * k,
+        'input_reads_only_through_list': 240 * k,
+        'input_reads_only_through_dict': 100 * k,
+        'input_reads_only_through_kwarg': 100 * k,
     }
 
 
@@ -101,7 +124,21 @@ def payload_count(*args):
     return len(args)
 
 
+def payload_kwfirst(*args, **kwargs):
+    return args[0] if args else (sorted(kwargs)[0] if kwargs else None)
+
+
+def payload_named(*args, pair=None, inputs=None, opts=None, ref=None, sample=None):
+    return [len(args), pair, inputs, opts, ref, sample]
+
+
 PAYLOADS = {'payload_first': payload_first, 'payload_count': payload_count}
+# calls with keyword arguments need a signature that binds them (PythonJob.call checks inspect.signature(...).bind)
+KW_PAYLOADS = {'payload_kwfirst': payload_kwfirst, 'payload_named': payload_named}
+ALL_PAYLOADS = dict(PAYLOADS, **KW_PAYLOADS)
+KW_NAMES = ['pair', 'inputs', 'opts', 'ref', 'sample']
+DICT_KEYS = ['a', 'b', 'sample-1', 'NA12878', 'path', "it's", 0, 1]
+CONTAINER_KINDS = ('list', 'tuple', 'dict', 'kwarg')
 
 # ------------------------------------------------------------------------------------------
 # generation
@@ -180,7 +217,11 @@ class Gen:
         nj = r.choice([1, 2, 2, 3, 3, 4, 4, 5, 6])
         if self.mode == 'tokens':
             nj = r.choice([3, 4, 5, 6])
+        if self.mode == 'pyargs':
+            nj = r.choice([2, 3, 3, 4, 5])
         p_py = 0.0 if self.mode in ('tokens', 'digits') else r.choice([0.0, 0.25, 0.5])
+        if self.mode == 'pyargs':
+            p_py = r.choice([0.5, 0.75])
         rank = list(range(nj))
         r.shuffle(rank)  # rank[k] = job index processed k-th; consumers only read from earlier-processed jobs
         same_name = r.choice(['same', None, 'v' * 260])
@@ -189,6 +230,8 @@ class Gen:
             name = same_name if self.mode == 'tokens' else r.choice(JOB_NAMES)
             self.jobs.append({'kind': kind, 'name': name, 'depends_on': [], 'calls': [], 'cmds': []})
             self.finals[j] = set()
+        if self.mode == 'pyargs' and all(job['kind'] == 'bash' for job in self.jobs):
+            self.jobs[rank[-1]]['kind'] = 'python'  # the last-processed job can consume every other job's files
         creation = []
         for path in r.sample(INPUT_PATHS, r.randint(0, 4)) + ([r.choice(INPUT_PATHS)] if r.random() < 0.2 else []):
             rid = self.new_file(kind='input', producer=None, name=os.path.basename(path.rstrip('/')), src=path, valid=True, group=None)
@@ -341,6 +384,32 @@ class Gen:
             job['depends_on'].append(p)
             self.later({'op': 'depends_on', 'j': j, 'p': p})
 
+    def py_leaf(self, fs, gs, pys):
+        r = self.rng
+        pool = r.random()
+        if pool < 0.5 and fs:
+            return {'t': 'file', 'rid': r.choice(fs)}
+        if pool < 0.65 and gs:
+            return {'t': 'group', 'gid': r.choice(gs)}
+        if pool < 0.8 and pys:
+            return {'t': 'pyresult', 'rid': r.choice(pys)}
+        return {'t': 'value', 'v': r.choice([0, 3, 'plain', "it's", 'NA12878', '__RESOURCE_FILE__', None, 2.5, True])}
+
+    def py_container(self, fs, gs, pys, depth):
+        """a list / tuple / dict argument (dict as [key, value] pairs) of 0..3 items; items are leaves or, up to depth 3, containers"""
+        r = self.rng
+        kind = r.choice(['tuple', 'tuple', 'list', 'dict'])
+        n = r.choice([0, 1, 2, 2, 2, 3])
+        items = []
+        for _ in range(n):
+            if depth < 3 and r.random() < 0.3:
+                items.append(self.py_container(fs, gs, pys, depth + 1))
+            else:
+                items.append(self.py_leaf(fs, gs, pys))
+        if kind == 'dict':
+            return {'t': 'dict', 'items': [[k, v] for k, v in zip(r.sample(DICT_KEYS, n), items)]}
+        return {'t': kind, 'items': items}
+
     def python_job(self, j, rank):
         r = self.rng
         job = self.jobs[j]
@@ -360,9 +429,22 @@ class Gen:
                     args.append({'t': 'list', 'items': [{'t': 'file', 'rid': x} for x in r.sample(fs, 2)]})
                 else:
                     args.append({'t': 'value', 'v': r.choice([0, 3, 'plain', "it's", '__RESOURCE_FILE__', None, 2.5])})
+            # resources that reach the function only inside containers: tuples, lists, dicts, nested in each other
+            # (`j.call(f, ('NA12878', other.ofile))`, `j.call(f, [(name, x.ofile) for ...])`), and keyword arguments
+            pyargs = self.mode == 'pyargs'
+            if r.random() < (1.0 if pyargs else 0.35):
+                for _ in range(r.choice([1, 1, 2])):
+                    args.insert(r.randint(0, len(args)), self.py_container(fs, gs, pys + own_results, 1))
+            kwargs = []
+            if r.random() < (0.6 if pyargs else 0.25):
+                for name in r.sample(KW_NAMES, r.choice([1, 1, 2])):
+                    if r.random() < 0.5:
+                        kwargs.append([name, self.py_container(fs, gs, pys + own_results, 1)])
+                    else:
+                        kwargs.append([name, self.py_leaf(fs, gs, pys + own_results)])
             rid = self.new_file(kind='pyresult', producer=j, name=f'result{k + 1}', group=None, valid=True)
             own_results.append(rid)
-            job['calls'].append({'fn': r.choice(sorted(PAYLOADS)), 'args': args, 'result': rid})
+            job['calls'].append({'fn': r.choice(sorted(KW_PAYLOADS if kwargs else ALL_PAYLOADS)), 'args': args, 'kwargs': kwargs, 'result': rid})
             self.ops.append({'op': 'call', 'j': j, 'k': k})
             for how in r.sample(['str', 'json', 'repr'], r.choice([0, 1, 1, 2])):
                 crid = self.new_file(kind='converted', producer=j, name=f'result{k + 1}-{how}' + ('.json' if how == 'json' else '.txt'),
@@ -606,9 +688,14 @@ def execute(case):
                                 return fobj[a['rid']]
                             if a['t'] == 'group':
                                 return gobj[a['gid']]
+                            if a['t'] == 'tuple':
+                                return tuple(real_arg(x) for x in a['items'])
+                            if a['t'] == 'dict':
+                                return {key: real_arg(x) for key, x in a['items']}
                             return [real_arg(x) for x in a['items']]
 
-                        fobj[call['result']] = jobs[j].call(PAYLOADS[call['fn']], *[real_arg(a) for a in call['args']])
+                        fobj[call['result']] = jobs[j].call(ALL_PAYLOADS[call['fn']], *[real_arg(a) for a in call['args']],
+                                                            **{name: real_arg(a) for name, a in call['kwargs']})
                     elif kind == 'convert':
                         f = case['files'][op['rid']]
                         res = fobj[f['of']]
@@ -760,6 +847,14 @@ def expand_reference(text, env):
     return p, 'other_quoting'
 
 
+def arg_shape(a):
+    if a['t'] == 'dict':
+        return 'dict(' + ','.join(arg_shape(x) for _, x in a['items']) + ')'
+    if a['t'] in ('list', 'tuple'):
+        return a['t'] + '(' + ','.join(arg_shape(x) for x in a['items']) + ')'
+    return a['t']
+
+
 def shape_key(case):
     out = []
     for op in case['ops']:
@@ -779,7 +874,7 @@ def shape_key(case):
             out.append(('command', op['j'], tuple(sig)))
         elif k == 'call':
             call = case['jobs'][op['j']]['calls'][op['k']]
-            out.append(('call', op['j'], tuple(a['t'] for a in call['args'])))
+            out.append(('call', op['j'], tuple(arg_shape(a) for a in call['args']), tuple('kw:' + arg_shape(a) for _, a in call['kwargs'])))
         elif k == 'new_job':
             out.append((k, op['j'], case['jobs'][op['j']]['kind']))
         else:
@@ -949,6 +1044,17 @@ def check(ctx, case, obs):
 
     # ---- 2. python jobs: the paths handed to the function, from the argument files the job downloads ----
     py_uses_groups = []
+    routes = {}  # (python job, rid) -> set of routes (tuple of container kinds, outermost first) by which the resource reaches the job
+
+    def add_route(j, rid, route):
+        routes.setdefault((j, rid), set()).add(route)
+        if route:
+            ctx.count('python_resource_args_inside_a_container')
+            for kind in set(route):
+                ctx.count(f'python_resource_args_inside_{kind}')
+            if len([x for x in route if x != 'kwarg']) >= 2:
+                ctx.count('python_resource_args_nested_two_or_more_containers_deep')
+
     for j, job in enumerate(jobs):
         if job['kind'] != 'python':
             continue
@@ -969,10 +1075,17 @@ def check(ctx, case, obs):
                 viol('python/argument-count-changed', f'python job {j} call {k}: {len(call["args"])} arguments became {len(pargs)}', job=j)
                 ok = False
                 continue
+            if not isinstance(pkwargs, dict) or sorted(pkwargs) != sorted(name for name, _ in call['kwargs']):
+                viol('python/keyword-arguments-changed', f'python job {j} call {k}: keyword arguments {[name for name, _ in call["kwargs"]]} became {pkwargs!r}'[:400], job=j)
+                ok = False
+                continue
 
-            def walk(a, p):
+            def walk(a, p, route=()):
                 nonlocal ok
-                if a['t'] == 'value':
+                if not isinstance(p, tuple) or len(p) != 2:
+                    viol('python/argument-not-a-tagged-pair', f'python job {j}: argument {a!r} was serialized as {p!r}'[:400], job=j)
+                    ok = False
+                elif a['t'] == 'value':
                     if p != ('value', a['v']):
                         viol('python/value-argument-changed', f'python job {j}: value argument {a["v"]!r} became {p!r}', job=j)
                         ok = False
@@ -982,6 +1095,7 @@ def check(ctx, case, obs):
                         ok = False
                     else:
                         add_use(j, a['rid'], p[1])
+                        add_route(j, a['rid'], route)
                         ctx.count('python_consumer_args_checked')
                 elif a['t'] == 'pyresult':
                     if p[0] != 'py_path':
@@ -990,6 +1104,7 @@ def check(ctx, case, obs):
                     else:
                         if files[a['rid']]['producer'] != j:
                             add_use(j, a['rid'], p[1])
+                            add_route(j, a['rid'], route)
                         ctx.count('python_consumer_args_checked')
                 elif a['t'] == 'group':
                     g = groups[a['gid']]
@@ -999,17 +1114,46 @@ def check(ctx, case, obs):
                     else:
                         for m, path in p[1].items():
                             add_use(j, g['members'][m], path)
+                            add_route(j, g['members'][m], route)
                             ctx.count('python_consumer_args_checked')
-                else:
-                    if p[0] != 'list' or len(p[1]) != len(a['items']):
-                        viol('python/list-argument-changed', f'python job {j}: list argument became {p!r}', job=j)
+                elif a['t'] == 'dict':
+                    keys = [key for key, _ in a['items']]
+                    if p[0] != 'dict' or not isinstance(p[1], dict) or len(p[1]) != len(keys) or any(key not in p[1] for key in keys):
+                        viol('python/dict-argument-changed', f'python job {j}: dict argument with keys {keys!r} became {p!r}'[:400], job=j)
                         ok = False
                     else:
+                        ctx.count('python_container_args_walked')
+                        for key, x in a['items']:
+                            walk(x, p[1][key], route + ('dict',))
+                else:
+                    # list / tuple: same kind of sequence, same length, items in order
+                    seq_type = list if a['t'] == 'list' else tuple
+                    if p[0] != a['t'] or not isinstance(p[1], seq_type) or len(p[1]) != len(a['items']):
+                        viol(f'python/{a["t"]}-argument-changed', f'python job {j}: {a["t"]} argument of {len(a["items"])} items became {p!r}'[:400], job=j)
+                        ok = False
+                    else:
+                        ctx.count('python_container_args_walked')
                         for x, y in zip(a['items'], p[1]):
-                            walk(x, y)
+                            walk(x, y, route + (a['t'],))
 
             for a, p in zip(call['args'], pargs):
                 walk(a, p)
+            for name, a in call['kwargs']:
+                ctx.count('python_keyword_args_checked')
+                walk(a, pkwargs[name], ('kwarg',))
+
+    # a defect in how one kind of container is searched for resources is visible only for a file that reaches the consumer
+    # through that kind of container on EVERY route (a second, direct mention registers the plumbing): count those
+    for (j, rid), rts in sorted(routes.items()):
+        a = files[rid]['producer']
+        if a == j:
+            continue
+        who = 'input' if a is None else 'cross_job'
+        for kind in CONTAINER_KINDS:
+            if all(kind in rt for rt in rts):
+                ctx.count(f'{who}_reads_only_through_{kind}')
+        if all(rt for rt in rts):
+            ctx.count(f'{who}_reads_only_inside_containers')
 
     # ---- 3. plumbing of every file a job uses ----
     def producer_path_written(a, path):
@@ -1076,12 +1220,18 @@ def check(ctx, case, obs):
             if f['kind'] == 'converted':
                 ctx.count('converted_result_reads')
             stale = rid in ext_post
+            aspec = spec_of[a]
+            # "the consumer is submitted as a child of the producer": demanded for every file the consumer uses, whether or
+            # not the transfer itself is in order
+            ctx.count('parents_checked')
+            if aspec['job_id'] not in spec['parents']:
+                viol('parents/producer-not-a-parent', f'job {j} reads file {f["name"]!r} of job {a} but is submitted with parents {spec["parents"]} (producer is job_id {aspec["job_id"]})', job=j, rid=rid)
+                ok = False
             if not ins:
                 key = 'extension/added-after-mention-stale-path' if stale and any(l == path + f['ext'] for _, l in spec['input_files']) else 'plumbing/consumer-does-not-download-the-path-it-uses'
                 viol(key, f'job {j} uses {path!r} for file {f["name"]!r} of job {a}, but its input_files are {spec["input_files"]}', job=j, rid=rid)
                 ok = False
                 continue
-            aspec = spec_of[a]
             matched = [(l, r) for r_in, _ in ins for l, r in aspec['output_files'] if r == r_in]
             if not matched:
                 viol('plumbing/producer-uploads-elsewhere', f'job {j} downloads {[r for r, _ in ins]} for file {f["name"]!r} of job {a}, whose output_files are {aspec["output_files"]}', job=j, rid=rid)
@@ -1100,10 +1250,6 @@ def check(ctx, case, obs):
                     if not producer_path_written(a, l):
                         viol('plumbing/producer-uploads-a-path-its-command-does-not-use', f'python job {a} uploads {l!r} but its command never mentions that path', job=j, rid=rid)
                         ok = False
-            ctx.count('parents_checked')
-            if aspec['job_id'] not in spec['parents']:
-                viol('parents/producer-not-a-parent', f'job {j} reads file {f["name"]!r} of job {a} but is submitted with parents {spec["parents"]} (producer is job_id {aspec["job_id"]})', job=j, rid=rid)
-                ok = False
 
     # whole-group reference to a job's group: members without a {root}-relative name must be plumbed too
     for (j, gid), roots in sorted(group_root.items()):
@@ -1234,7 +1380,8 @@ def run(ctx):
     import gc
 
     gc.disable()  # Backend.__del__ runs the event loop: let the cyclic GC run between cases only
-    phases = [('main', ctx.pick(1200, 5000)), ('tokens', ctx.pick(100, 300)), ('digits', ctx.pick(100, 300))]  # ~8 ms per program
+    phases = [('main', ctx.pick(1200, 5000)), ('tokens', ctx.pick(100, 300)), ('digits', ctx.pick(100, 300)),
+              ('pyargs', ctx.pick(200, 600))]  # ~8 ms per program
     for phase, n in phases:
         for i, rng in ctx.cases(n, phase):
             case = gen_case(rng, phase)
@@ -1311,3 +1458,20 @@ def run(ctx):
 #                                                               CAUGHT command/reference-not-a-quoted-path
 #  (an earlier version consulted /bin/bash for non-canonical quoting; D4 made it execute fragments of generated names, so it
 #   was replaced by the pure-Python shell_literal_word.)
+#
+# Strengthening after seed C18-agent4 (PythonJob.call stopped descending into tuples: a file that reaches a python consumer only
+# inside a tuple got no input_files entry, no parent, no upload by the producer, while _compile.preserialize still handed the
+# function a local path).  The generator only passed resources directly or in a flat list, and the oracle ignored keyword
+# arguments.  Added: container arguments (tuple / list / dict, nested <= 3, empty, mixed with values) and keyword arguments in
+# the main phase and a python-heavy phase `pyargs`; the oracle walks positional and keyword arguments through every container
+# and applies the plumbing clauses to every path found; the parent clause is checked independently of the transfer clause;
+# counters *_only_through_<kind> (with floors) count the files whose every route into the consumer passes that container kind.
+# Validation (scratch worktree of b3860ceef, quick, seed 0, one break at a time, all exit 1):
+#  S4  seed   C18-agent4 tuples not searched                     CAUGHT plumbing/consumer-does-not-download-the-path-it-uses,
+#             parents/producer-not-a-parent, input/referenced-path-not-downloaded
+#  B1  own    handle_args: dict branch dropped (kwargs still walked value by value)       CAUGHT same three keys
+#  B2  own    handle_args(kwargs) dropped (keyword arguments not searched)                CAUGHT same three keys
+#  B3  own    only resources at the first level of a container are registered             CAUGHT same three keys
+#  B4  own    _compile.preserialize serializes tuples as lists                            CAUGHT python/tuple-argument-changed
+#  B5  own    handle_arg does not add the dependency for PythonResult arguments           CAUGHT parents/producer-not-a-parent
+#  (C18-agent2, Job._dirname truncation: still CAUGHT paths/job-token-collision)
